@@ -285,6 +285,9 @@ class Gen:
                 b = self.newname(d2)              # often an existing name: overwrite by rename
                 if b == a or self.tree.get(b) == "d" or b.count("/") > 2:
                     return
+                ta = self.tree[a]
+                if isinstance(ta, tuple) and ".." in ta[1] and os.path.dirname(a) != os.path.dirname(b):
+                    return        # a relative link with ".." moved to another depth could point outside the sandbox root
                 self.emit("fs rename %s %s" % (a, b))
                 self.rename_tree(a, b)
         elif op == "renamedir":
@@ -423,6 +426,7 @@ CORPUS = [
     ("p-close-racing-3", ["fs mkdir d", "fs mkdir e", "fs create d/1", "fs create d/2", "fs create d/3", "fs create d/4", "fs create d/5",
                           "fs create e/1", "fs create e/2", "fs create e/3", "api add d", "api add e", "fs write d/1", "racecl create e/0"]),
     ("k-dir-write-rename-coalesced", ["fs mkdir p", "api add p", "fs mkdir p/d", "api add p/d", "hold", "fs create p/d/x", "fs rename p/d p/e", "release", "fs mkdir p/d"]),
+    ("k-watched-file-recreated-in-burst", ["fs mkdir d0", "fs create d0/x", "api add d0/x", "hold", "fs unlink d0/x", "fs create d0/x", "release"]),
     ("k-burst-rmdir-recreate", ["fs mkdir d", "api add d", "fs mkdir d/s", "hold", "fs rmdir d/s", "fs create d/s", "release"]),
     ("p-plain", ["fs mkdir d", "fs create d/pre", "api add d", "fs create d/a", "fs write d/a", "fs chmod d/a", "fs rename d/a d/b",
                  "fs unlink d/b", "fs create d/b", "fs mkdir d/s", "fs rmdir d/s", "api list", "api remove d", "api list"]),
@@ -548,7 +552,7 @@ def features(steps):
     """shape of a (minimal) history: which ingredients it has (a small replay of the tree, add by add)"""
     kinds, f = {}, set()      # path -> 'f' | 'd' | 'p' | 'l' ; link targets under path+'@'
     adds, adddirs = [], set()
-    holding, renamed_away, rmdired, changed_in_hold = False, set(), set(), set()
+    holding, renamed_away, rmdired, changed_in_hold, unlinked_watched = False, set(), set(), set(), set()
 
     def target(p):
         t = kinds.get(p + "@")
@@ -585,6 +589,8 @@ def features(steps):
                 if w[2] in adds and kinds.get(w[2]) == "d" and w[2] in changed_in_hold:
                     f.add("watched-dir-write-rename-coalesced")
                 changed_in_hold.add(os.path.dirname(w[2]) or ".")
+            if holding and p in unlinked_watched and w[1] in ("mkfifo", "symlink", "mkdir", "link"):
+                f.add("watched-file-recreated-in-burst")
             if holding and p in renamed_away and w[1] in ("mkfifo", "symlink", "mkdir", "link"):
                 f.add("rename-then-recreate-in-burst")
             if holding and p in rmdired and w[1] in ("mkfifo", "symlink", "mkdir", "link", "create"):
@@ -602,6 +608,8 @@ def features(steps):
                 kinds.setdefault(p, "d")
             elif w[1] in ("create", "link"):
                 kinds.setdefault(p, "f")
+                if holding and p in unlinked_watched:
+                    f.add("watched-file-recreated-in-burst")
                 if holding and p in renamed_away:
                     f.add("rename-then-recreate-in-burst")
             elif w[1] == "rename" and len(w) == 4:
@@ -619,13 +627,19 @@ def features(steps):
                     f.add("rename-then-recreate-in-burst")
                 if holding and b in rmdired:
                     f.add("rmdir-then-recreate-in-burst")
+                if holding and b in unlinked_watched:
+                    f.add("watched-file-recreated-in-burst")
                 if holding:
                     renamed_away.add(a)
+                    if a in adds:
+                        unlinked_watched.add(a)
                 move(a, b)
                 entry(b)
             elif w[1] in ("unlink", "rmdir"):
                 if kinds.get(p) == "l" and par in adddirs:
                     f.add("symlink-entry")
+                if holding and w[1] == "unlink" and p in adds:
+                    unlinked_watched.add(p)
                 if holding and w[1] == "rmdir":
                     rmdired.add(p)           # a removed DIRECTORY is not re-scanned either (same block of readEvents)
                 kinds.pop(p, None)
@@ -663,6 +677,7 @@ def features(steps):
             renamed_away.clear()
             rmdired.clear()
             changed_in_hold.clear()
+            unlinked_watched.clear()
     if any(s == "api close" for s in steps):
         f.add("close")
     return sorted(f)
@@ -670,7 +685,7 @@ def features(steps):
 
 # the last two are the ingredients of defects repaired in /repo (c3f1f06): they only decide the key when nothing else does
 CAUSES = ["symlink-added", "fifo-entry", "dangling-symlink-entry", "symlink-entry",
-          "watched-dir-write-rename-coalesced", "watched-dir-renamed", "watched-file-overwritten", "rename-then-recreate-in-burst", "rmdir-then-recreate-in-burst", "entry-user-removed",
+          "watched-dir-write-rename-coalesced", "watched-dir-renamed", "watched-file-recreated-in-burst", "watched-file-overwritten", "rename-then-recreate-in-burst", "rmdir-then-recreate-in-burst", "entry-user-removed",
           "fifo-added", "unclean-spelling"]
 
 
@@ -820,6 +835,7 @@ WHAT = {
     "dangling-symlink-entry": "an unresolvable symlink inside a watched directory makes open fail: Add of the directory fails half-way leaving watches behind; later scans report its Create again on every change and stop before the entries sorted after it",
     "symlink-entry": "the per-entry watch of a symlink follows the link (open without O_NOFOLLOW): removing/renaming/overwriting the link itself is not reported (recorded as broken in testdata/watch-dir/remove-symlink) and target events are reported under the link's name",
     "watched-file-overwritten": "when a watched file is replaced by rename the watcher re-watches the new file internally: WatchList no longer shows it but the descriptor and table entries remain",
+    "watched-file-recreated-in-burst": "a user-watched path deleted or renamed away and its name created again before the reader runs: after the Remove the watcher finds the name again, reports Create and re-watches the new file internally: WatchList no longer shows it but the descriptor and table entries remain",
     "remove-of-unadded-succeeds": "Remove succeeds on a per-entry watch the user never added (documented: ErrNonExistentWatch) and silently stops the reporting for that entry",
     "entry-user-removed": "Remove of a user-added entry of a watched directory removes the one shared watch: the directory stops reporting that entry's changes and reports Create for it again",
     "reader-blocked:plain": "the reader goroutine blocks forever",
